@@ -7,11 +7,11 @@ import "fmt"
 
 // X is one execution of a body.
 type X struct {
-	prefix  []int
-	Choices []int
-	Widths  []int
-	Free    []bool // alternatives at this point cost no deviation
-	Labels  []string
+	prefix     []int
+	Choices    []int
+	Widths     []int
+	Free       []bool // alternatives at this point cost no deviation
+	Labels     []string
 	KeepLabels bool
 }
 
